@@ -157,7 +157,7 @@ def replay_only(ctx):
     cp, obs, empty = ctx.path("case.ndjson"), ctx.path("obs.ndjson"), ctx.path("storm.ndjson")
     vlib.write_ndjson(cp, [cd])
     open(empty, "w").close()
-    ctx.must_run_go(ctx.go_bin("gstx"), "TestReplay", env={"VERIF_CASES": cp, "VERIF_OUT": obs}, timeout=120)
+    ctx.must_run_go(ctx.go_bin("gstx"), "TestReplay", env={"VERIF_CASES": cp, "VERIF_OUT": obs}, timeout=150, hang_rule="C16.callReturns")
     res = ctx.tlc("GsTJudge", "gst-judge.cfg", workers=1, timeout=300, extra_files=[obs, empty])
     vlib.tlc_must_pass(res, "GsTJudge")
     p = os.path.join(res.dir, "verdicts.ndjson")
@@ -239,7 +239,7 @@ def run(ctx):
     # 3. replay on the real adapter
     b = fb.result()
     obs = ctx.path("gst-obs.ndjson")
-    ctx.must_run_go(b, "TestReplay", env={"VERIF_CASES": cp, "VERIF_OUT": obs}, timeout=240)
+    ctx.must_run_go(b, "TestReplay", env={"VERIF_CASES": cp, "VERIF_OUT": obs}, timeout=240, hang_rule="C16.callReturns")
     # 4. storms (and, thorough tier, the same storms under the race detector)
     storm = ctx.path("gst-storm.ndjson")
     nst = 8 if q else 40
